@@ -15,7 +15,7 @@ def main(src, bid, checks):
     dst = os.path.join(V, 'benign', bid)
     os.makedirs(dst, exist_ok=True)
     for f in os.listdir(src):
-        if f.endswith(('.diff', '.py', '.md')) :
+        if f.endswith(('.diff', '.py', '.md')) and os.path.realpath(src) != os.path.realpath(dst):
             shutil.copy(os.path.join(src, f), os.path.join(dst, f))
     shutil.rmtree(SCRATCH, ignore_errors=True)
     sh('mkdir -p /root/scratch && git -C /repo archive --format=tar --prefix=benignrepo/ HEAD | tar -x -C /root/scratch')
